@@ -33,7 +33,7 @@ def run(ctx, pid=PID, roots=ROOTS, kinds=KINDS, what='forward', floor_roots=9, f
                               'bit-provenance dataflow over src/vector.rs; trusted: the transfer functions of the vendor intrinsics in mcai/lanes.py); '
                               'has_zero_byte (SWAR) is an axiom'])
     from .. import configs as _c
-    cfgs = ctx.cfgs(quick=['x64-std@rel', 'a64@rel'], thorough=[c + '@rel' for c in _c.ALL])
+    cfgs = ctx.cfgs(quick=['x64-std@rel', 'a64@rel', 'i686@rel'], thorough=[c + '@rel' for c in _c.ALL])
     sites, roots_seen, errors = e2common.root_table(ctx, cfgs, roots, kinds)
     per_kind = e2common.emit(rep, sites, errors)
     for cfg in cfgs:
